@@ -361,7 +361,7 @@ theorem C17_bare_cr_fails :
       some (some [(str "grpc-status", str "0"), (str "x", str "v")]) := by
   decide +kernel
 
-/-- … repaired (fix f9e3e878): the unterminated line is read, the caller gets INTERNAL; the bare
+/-- … repaired (fix 1bfb22e3): the unterminated line is read, the caller gets INTERNAL; the bare
 CR makes the block an error. -/
 theorem C17_block_witnesses_repaired :
     Fixed.observe [.data unterminated] = [.trailers [(str "grpc-status", str "13")], .eos] ∧
